@@ -659,6 +659,9 @@ func (g *gen) annotate(m *Message, fq string, c *fieldCtx) {
 		ref := g.emptyCapableMessage()
 		f := addField(KMessage, ref, Singular)
 		f.EnsureAnn().EmptyBehavior = int32(g.intn(1, 3, "emptyb"))
+		if f.Ann.EmptyBehavior == 2 && p.ContractStrict && g.avoid("ts_empty_behavior_null_not_declared") {
+			f.Ann.EmptyBehavior = 3
+		}
 		mark("empty")
 		g.tagf("empty:%d", f.Ann.EmptyBehavior)
 	}
@@ -882,7 +885,7 @@ func (g *gen) headers(over []*Header) []*Header {
 					clash = true
 				}
 			}
-			if clash && (g.p.TSServer && g.avoidQuiet("ts_header_override_not_merged") || !strings.EqualFold(name, name) ) {
+			if clash && (g.p.TSServer && g.avoidQuiet("ts_header_override_not_merged") || !strings.EqualFold(name, name)) {
 				continue
 			}
 			if clash && g.avoidQuiet("header_case_variant_override") {
